@@ -1,5 +1,5 @@
 //! C16 streams: xfer stream <seed> <ncases> [mode=threads|procs] [transport=unix|tcp|any] [maxlen=N]
-//!              xfer timeouts <seed> <reps> | xfer tries <seed> <reps> | xfer edge <seed> 1
+//!              xfer timeouts <seed> <reps> | xfer tries <seed> <reps> | xfer edge <seed> 1 | xfer intr <seed> <reps> [inject]
 #[cfg(not(miri))]
 fn main() {
     use h_sock::{mon, stream, timed};
@@ -63,6 +63,7 @@ fn main() {
             }
             stream::report(&t);
         }
+        "intr" => h_sock::intr::run_intr(a.seed, a.budget, &dir, a.rest.iter().any(|x| x == "inject")),
         "timeouts" => timed::run_timeouts(a.seed, a.budget, &dir),
         "tries" => timed::run_tries(a.seed, a.budget, &dir),
         "edge" => timed::run_edge(&dir),
